@@ -74,10 +74,14 @@ def succJ (cfg : Cfg) (s : State) : Steps :=
       | some i => (taskSteps cfg p.2 i).filter (fun q => q.1.isNone))
 
 /-- internal closure (same set as `Conc.tauClosure`, computed with a hash set and a frontier) -/
+def stateCap : Nat := 40000
+
 def closure (cfg : Cfg) : Nat → Std.HashSet State → List State → Std.HashSet State
   | 0, seen, _ => seen
   | _, seen, [] => seen
   | n + 1, seen, frontier =>
+    -- more compatible states than `stateCap`: give up on this scenario (the caller stops modelling it; never a verdict)
+    if seen.size > stateCap then seen else
     let (seen, next) := frontier.foldl (fun (acc : Std.HashSet State × List State) s =>
       (succJ cfg s).foldl (fun (acc : Std.HashSet State × List State) p =>
         match p.1 with
@@ -295,6 +299,9 @@ structure J where
   ss : List State := [{}]
   rej : Option String := none
   book : Book := {}
+  /-- the set of model states compatible with the events so far outgrew `stateCap`: the model side of this scenario is not judged any
+  further (the history predicates still are) -/
+  skipped : Bool := false
 
 def evName : List Val → String
   | .w s :: _ => s
@@ -313,7 +320,14 @@ def step (j : J) (toks : List Val) (_impl : String) : J × Out :=
     | none => (j, { model := "bad-op" })
     | some e =>
       let book := observe j.cfg { j.book with line := j.book.line + 1 } e
+      if j.skipped then
+        ({ j with book := book }, { model := "ok", spec := some (book.viol.getD "ok"), tags := [evName toks, "model.skipped:state-explosion"] })
+      else
       let ss := match j.rej with | some _ => [] | none => advance j.cfg j.ss e
+      if ss.length > stateCap then
+        ({ j with ss := [], skipped := true, book := book },
+         { model := "ok", spec := some (book.viol.getD "ok"), tags := [evName toks, "model.skipped:state-explosion"] })
+      else
       let rej := match j.rej with
         | some r => some r
         | none => if ss.isEmpty then some ("rejected:" ++ evName toks) else none
